@@ -314,9 +314,13 @@ def selection(run, model, rule="C03.selection", rule_src="C03.selection-source")
                 l, r = ts[2]
                 if name_of(l) and r[0] == "const":
                     lit = ast.literal_eval(r[1])
+                    if lit not in NAME_CLASSES.values():
+                        return None  # a name the table does not distinguish: free atom
                     return (name == lit) if op == "Eq" else ((name != lit) if op == "NotEq" else None)
                 if name_of(l) and r[0] == "display" and op in ("In", "NotIn") and all(x[0] == "const" for x in r[2]):
                     lits = [ast.literal_eval(x[1]) for x in r[2]]
+                    if any(l_ not in NAME_CLASSES.values() for l_ in lits) and name not in lits:
+                        return None  # the tuple names members the table does not distinguish
                     return (name in lits) if op == "In" else (name not in lits)
                 # getattr(value, "__self__", None) is cls
                 if op in ("Is", "IsNot") and r == cls_p and l[0] == "call" and l[1] == ("builtin", "getattr") and len(l[2]) == 3 and value_of(l[2][0]) and l[2][1] == ("const", "'__self__'"):
@@ -335,6 +339,8 @@ def selection(run, model, rule="C03.selection", rule_src="C03.selection-source")
                 c, args = ts[1], ts[2]
                 if c[0] == "attr" and name_of(c[1]) and c[2] in ("startswith", "endswith") and len(args) == 1 and args[0][0] == "const":
                     lit = ast.literal_eval(args[0][1])
+                    if lit not in ("_", "__"):
+                        return None  # a prefix/suffix the table does not distinguish: free atom
                     return name.startswith(lit) if c[2] == "startswith" else name.endswith(lit)
                 if c == ("attr", ("module", "inspect"), "isfunction") and len(args) == 1 and value_of(args[0]):
                     return vkind in ("function", "static_function")
